@@ -13,7 +13,8 @@ RULE = (
     "start/end/scheduled of every task) enumerated by blocking clauses on an independent fresh solver and cross-checked by the "
     "reference, plus the list of exclusions the history accumulated. Invariants after every call: result is valid, differs from "
     "every earlier result, honours every earlier 'variable != value' request, False only if no member of V consistent with the "
-    "history remains; all-find_another histories run to exhaustion visit V exactly once each. Non-trivial = |V| >= 3 and the "
+    "history remains; all-find_another histories run to exhaustion visit V exactly once each. A second stratum makes the first solve an "
+    "optimisation (incremental optimiser, objective over an indicator with declared bounds, makespan) before the same enumeration. Non-trivial = |V| >= 3 and the "
     "history reaches exhaustion or >= 3 distinct solutions; distinct by SHA-1 of (spec, history)."
 )
 ASSUMPTIONS = [
